@@ -3,10 +3,10 @@ CONSTANTS
   Dirs <- MCDirs
   TypeEncs <- FullTypeEncs
   Maxes <- FullMaxes
-  Methods <- FullMethods
+  Methods <- MidMethods
   Shardings <- FullShardings
-  Codes <- FullCodes
-  CfgSpace <- FullCfg
+  Codes <- QuickCodes
+  CfgSpace <- MidCfg
   MaxLen = 1000
   AioForwardsMethod = TRUE
   CopyInfoLayout = "byInfo"
